@@ -15,7 +15,7 @@ ROOT = os.path.dirname(os.path.dirname(os.path.abspath(__file__)))
 SPEC = os.path.join(ROOT, "spec")
 HARNESS = os.path.join(ROOT, "harness")
 REPO = os.environ.get("VERIF_REPO", "/repo")
-NCPU = os.cpu_count() or 4
+NCPU = int(os.environ.get("VERIF_WORKERS", "0")) or os.cpu_count() or 4
 
 
 class Infra(Exception):
@@ -65,17 +65,29 @@ def goenv():
 
 
 def build_harness(ctx, tags="verif"):
-    """Rebuild lalexec from /repo's current working tree with hooks enabled."""
-    shutil.copyfile(os.path.join(REPO, "go.sum"), os.path.join(HARNESS, "go.sum"))
+    """Rebuild lalexec from the repository's current working tree (REPO, default /repo) with hooks on."""
     out = ctx.path("lalexec")
     t = time.time()
-    p = subprocess.run(["go", "build", "-tags", tags, "-o", out, "./cmd/lalexec"],
-                       cwd=HARNESS, env=goenv(), capture_output=True, text=True)
+    cmd = ["go", "build", "-tags", tags, "-o", out]
+    if os.path.realpath(REPO) != "/repo":
+        # scratch worktree: same module, replace directive pointed at it through an alternate go.mod
+        h = hashlib.sha1(REPO.encode()).hexdigest()[:10]
+        alt = os.path.join(HARNESS, ".alt-%s.mod" % h)
+        with open(os.path.join(HARNESS, "go.mod")) as f:
+            mod = f.read().replace("=> /repo", "=> " + os.path.realpath(REPO))
+        with open(alt, "w") as f:
+            f.write(mod)
+        shutil.copyfile(os.path.join(REPO, "go.sum"), alt[:-4] + ".sum")
+        cmd += ["-modfile", alt]
+    else:
+        shutil.copyfile(os.path.join(REPO, "go.sum"), os.path.join(HARNESS, "go.sum"))
+    cmd.append("./cmd/lalexec")
+    p = subprocess.run(cmd, cwd=HARNESS, env=goenv(), capture_output=True, text=True)
     if p.returncode != 0:
         sys.stderr.write(p.stdout + p.stderr)
         raise Infra("harness build failed")
     ctx.bin = out
-    ctx.log("built lalexec in %.1fs" % (time.time() - t))
+    ctx.log("built lalexec from %s in %.1fs" % (REPO, time.time() - t))
     return out
 
 
